@@ -437,10 +437,18 @@ pub fn check_c05_deep(q: &ConeQ, listed_kf1: bool, part: &mut Part) -> Verdict {
     idx < rs.len() && rs[idx].0 <= h
   };
   let mut pts: Vec<(f64, f64)> = vec![(q.lon, q.lat)];
-  for k in 0..16 {
-    let bearing = k as f64 * (TWO_PI / 16.0) + 0.05;
+  // cone many cells across: more bearings, and points half a cell / two cells inside the rim
+  let cell = PI / 3.0f64.sqrt() / (1u64 << q.depth) as f64;
+  let large = q.r > 40.0 * cell;
+  let nb = if large { 96 } else { 16 };
+  for k in 0..nb {
+    let bearing = k as f64 * (TWO_PI / nb as f64) + 0.05;
     for f in [0.25, 0.5, 0.75, 1.0 - 1e-6] {
       pts.push(destination(q.lon, q.lat, bearing, q.r * f));
+    }
+    if large {
+      pts.push(destination(q.lon, q.lat, bearing, q.r - 0.5 * cell));
+      pts.push(destination(q.lon, q.lat, bearing, q.r - 2.0 * cell));
     }
   }
   let mut known_case: Option<Value> = None;
@@ -574,9 +582,43 @@ pub fn run(ctx: &Ctx, c06: bool) -> i32 {
       jobs.push((d, usize::MAX - ri, d > dmax));
     }
   }
+  // deep-large stratum: cones hundreds to thousands of cells across at mid / large depth
+  // (outputs of 10^4 .. 10^5 cells), generic mid-latitude centres
+  let t_all = thresholds();
+  let mut large_q: Vec<ConeQ> = vec![];
+  {
+    let specs: Vec<(u8, f64)> = if quick { vec![(13, 0.9 * t_all[6]), (20, 3.5e-3)] } else { vec![(12, 0.9 * t_all[6]), (13, 0.9 * t_all[6]), (16, 0.9 * t_all[8]), (18, 2.0e-3), (20, 3.5e-3), (22, 3.0e-3)] };
+    for (d, r) in specs {
+      for &(lon, lat) in &[(1.0, 0.62), (4.0, -0.66), (2.5, 0.35), (0.3, 1.0)] {
+        large_q.push(ConeQ { variant: 0, depth: d, delta: 0, lon, lat, r });
+        large_q.push(ConeQ { variant: 2, depth: d - 1, delta: 1, lon, lat, r });
+      }
+    }
+  }
+  let n_regular = jobs.len();
+  for k in 0..large_q.len() {
+    jobs.push((large_q[k].depth, usize::MAX / 2 + k, true));
+  }
+  let _ = n_regular;
   let total = par_jobs(jobs.len(), |j| {
     let (d, ci, deep) = jobs[j];
     let mut part = Part::new();
+    if ci >= usize::MAX / 2 && ci < usize::MAX / 2 + 100_000 {
+      let q = large_q[ci - usize::MAX / 2];
+      part.stratum("deep-large", 1, 1);
+      if c06 {
+        if let Some(v) = check_c06(&q, &mut part) {
+          part.viol(v);
+        }
+      } else {
+        match check_c05_deep(&q, listed_kf1, &mut part) {
+          Verdict::Ok => {}
+          Verdict::Known(k, ex) => part.known(k, ex),
+          Verdict::Bad(v) => part.viol(v),
+        }
+      }
+      return part;
+    }
     if ctx.over_budget() {
       part.caps.push(format!("wall budget {}s reached in {} enumeration", ctx.budget_s, id));
       return part;
@@ -703,7 +745,7 @@ pub fn run(ctx: &Ctx, c06: bool) -> i32 {
     ctx,
     total,
     json!({"shallow_depths": format!("0..={} (every cell of the depth is a candidate)", dmax), "delta_depths": deltas, "variants": ["approx", "flat", "custom"],
-      "centres": cs.len(), "radius_relative_centres": "for every radius < 1.2: centres at 2 (quick) / 5 (thorough) fractions of the radius on either side of the 7 critical parallels (transition, square-cell, equator, poles) x 3 / 6 longitudes near the critical meridians", "radii_per_depth": radii_for(dmax, quick).len(), "deep_depths": deep_depths,
+      "centres": cs.len(), "radius_relative_centres": "for every radius < 1.2: centres at 2 (quick) / 5 (thorough) fractions of the radius on either side of the 7 critical parallels (transition, square-cell, equator, poles) x 3 / 6 longitudes near the critical meridians", "radii_per_depth": radii_for(dmax, quick).len(), "deep_depths": deep_depths, "deep_large": "cones hundreds to thousands of cells across (outputs of 1e4..1e5 cells) at depths 13, 20 (quick) / 12..22 (thorough), 4 generic centres, approx + custom",
       "witnesses": "9x9 lattice of each closed cell (vertices and edge points included) + the cone centre"}),
     "every (variant, depth, delta_depth, centre, radius) combination of the alphabets; for each shallow query every cell of the depth",
     vec![
